@@ -1,6 +1,7 @@
 package main
 
 import (
+	"reflect"
 	"go/constant"
 	"fmt"
 	"go/token"
@@ -201,6 +202,7 @@ func (vc *VC) staticCall(call ssa.CallInstruction, callee *ssa.Function, binding
 		}
 	}
 	if callee.Pkg == vc.e.pkg && callee.Blocks != nil {
+		vc.mapOrderReportCheck(call, callee)
 		name := vc.e.fname(callee)
 		con := vc.e.cs.Funcs[name]
 		if con != nil && con.PrintfLike && len(c.Args) >= 2 {
@@ -490,6 +492,14 @@ func (vc *VC) libInvoke(call ssa.CallInstruction, recv Term) bool {
 		}
 		vc.havocResults(call)
 		return true
+	case name == "IsDir" && len(c.Args) == 0 && strings.HasSuffix(vc.e.typeName(c.Value.Type()), "FileInfo"):
+		// what os.Stat found: a function of the FileInfo value (tied to statdir(path) where os.Stat returns it)
+		if v := call.Value(); v != nil {
+			fn := sym("spec:infoisdir")
+			vc.declareFun(fn, []string{SIface}, "Bool")
+			vc.setVal(v, sx(fn, recv))
+			return true
+		}
 	}
 	return false
 }
@@ -536,7 +546,15 @@ func (vc *VC) libCall(call ssa.CallInstruction, callee *ssa.Function, args []Ter
 		r := strRes()
 		vc.gfact(And(Eq(Eq(r, "0"), Eq(args[0], args[1])), Ge(r, "(- 1)"), Le(r, "1")))
 		return true
-	case "strings.Contains", "strings.ContainsRune", "strings.ContainsAny", "strings.EqualFold":
+	case "strings.Contains":
+		// by definition strings.Contains(s, sub) is strings.Index(s, sub) >= 0
+		fn := sym("spec:index")
+		vc.declareFun(fn, []string{SStr, SStr}, SInt)
+		ix := sx(fn, args[0], args[1])
+		vc.setVal(v, Ge(ix, "0"))
+		vc.gfact(And(Ge(ix, "(- 1)"), Imp(Ge(ix, "0"), Le(Add(ix, sx("slen", args[1])), sx("slen", args[0])))))
+		return true
+	case "strings.ContainsRune", "strings.ContainsAny", "strings.EqualFold":
 		strRes()
 		return true
 	case "strings.Index", "strings.IndexByte", "strings.IndexRune", "strings.LastIndex", "strings.IndexAny", "strings.LastIndexByte":
@@ -576,11 +594,32 @@ func (vc *VC) libCall(call ssa.CallInstruction, callee *ssa.Function, args []Ter
 		vc.gfact(Imp(sx("nlfree", args[0]), sx("nlfree", r)))
 		return true
 	case "strings.ReplaceAll":
+		// line breaks are LF and CR: nlfree(t) <=> lffree(t) && crfree(t) (stated for the three texts of this
+		// call). Replacing every LF (CR) by a text without LF (CR) leaves none; the other kind of line break
+		// is absent afterwards iff it was absent from the input and the replacement.
 		r := strRes()
-		if k, ok := c.Args[1].(*ssa.Const); ok && k.Value != nil && k.Value.Kind() == constant.String && constant.StringVal(k.Value) == "\n" {
-			// every LF is replaced; CR is not produced by the Go libraries whose error texts are sanitised this way
-			vc.gfact(Imp(sx("nlfree", args[2]), sx("nlfree", r)))
-			vc.usedTrusted["strings.ReplaceAll(s, \"\\n\", x) has no line break (CR-free library texts)"] = true
+		for _, fn := range []string{"lffree", "crfree"} {
+			vc.declareFun(sym(fn), []string{SStr}, "Bool")
+		}
+		for _, t := range []Term{args[0], args[2], r} {
+			vc.gfact(Eq(sx("nlfree", t), And(sx("lffree", t), sx("crfree", t))))
+		}
+		oldLit := ""
+		if k, ok := c.Args[1].(*ssa.Const); ok && k.Value != nil && k.Value.Kind() == constant.String {
+			oldLit = constant.StringVal(k.Value)
+		}
+		keepLF := Imp(And(sx("lffree", args[0]), sx("lffree", args[2])), sx("lffree", r))
+		keepCR := Imp(And(sx("crfree", args[0]), sx("crfree", args[2])), sx("crfree", r))
+		switch {
+		case oldLit == "\n":
+			vc.gfact(Imp(sx("lffree", args[2]), sx("lffree", r)))
+			vc.gfact(keepCR)
+		case oldLit == "\r":
+			vc.gfact(Imp(sx("crfree", args[2]), sx("crfree", r)))
+			vc.gfact(keepLF)
+		case oldLit != "" && !strings.ContainsAny(oldLit, "\n\r"):
+			vc.gfact(keepLF)
+			vc.gfact(keepCR)
 		}
 		return true
 	case "strings.Join", "strings.Replace", "strings.Title", "strings.ToUpper", "strings.Map":
@@ -633,7 +672,32 @@ func (vc *VC) libCall(call ssa.CallInstruction, callee *ssa.Function, args []Ter
 	case "fmt.Fprint", "fmt.Fprintf", "fmt.Fprintln", "fmt.Print", "fmt.Printf", "fmt.Println":
 		vc.havocResults(call)
 		return true
-	case "sort.Strings", "sort.Ints", "sort.Sort", "sort.Stable", "sort.Slice", "sort.SliceStable":
+	case "sort.Strings", "sort.Ints":
+		// sorts the elements of its argument in place: only the backing array of that slice changes, and
+		// every element afterwards is one of the elements before (perm: a permutation of the indices)
+		if st, ok := c.Args[0].Type().Underlying().(*types.Slice); ok {
+			n, srt := vc.e.elemArr(st.Elem())
+			E := vc.arrCur(n, srt)
+			inner := strings.TrimSuffix(strings.TrimPrefix(srt, "(Array Int "), ")")
+			fresh := vc.fresh("sorted", inner)
+			vc.nfresh++
+			pf := sym(fmt.Sprintf("perm!%d", vc.nfresh))
+			vc.declareFun(pf, []string{SInt}, SInt)
+			sl := args[0]
+			E2 := Sto(E, sx("s_arr", sl), fresh)
+			vc.setArr(n, srt, E2)
+			vc.gfact(fmt.Sprintf("(forall ((j Int)) (! (=> (and (<= 0 j) (< j (s_len %s))) (and (<= 0 (%s j)) (< (%s j) (s_len %s)) (= %s %s))) :pattern (%s)))",
+				sl, pf, pf, sl, vc.eltTerm(st.Elem(), E2, sl, "j"), vc.eltTerm(st.Elem(), E, sl, sx(pf, "j")), vc.eltTerm(st.Elem(), E2, sl, "j")))
+			// positions of the backing array outside the slice are untouched
+			vc.gfact(fmt.Sprintf("(forall ((j Int)) (! (=> (or (< j (s_off %s)) (>= j (+ (s_off %s) (s_len %s)))) (= (select %s j) (select (select %s (s_arr %s)) j))) :pattern ((select %s j))))",
+				sl, sl, sl, fresh, E, sl, fresh))
+			vc.havocResults(call)
+			return true
+		}
+		vc.havoc(vc.callModSet(call))
+		vc.havocResults(call)
+		return true
+	case "sort.Sort", "sort.Stable", "sort.Slice", "sort.SliceStable":
 		vc.havoc(vc.callModSet(call))
 		vc.havocResults(call)
 		if name == "sort.Sort" || name == "sort.Stable" {
@@ -689,7 +753,121 @@ func (vc *VC) libCall(call ssa.CallInstruction, callee *ssa.Function, args []Ter
 		r := vc.havocResults(call)
 		vc.gfact(Eq(Ne(sx("i_tag", r[0]), "0"), sx(fn, args[0])))
 		return true
-	case "filepath.Join", "filepath.Clean", "filepath.Dir", "filepath.Base", "filepath.FromSlash", "filepath.Ext", "path.Join", "path.Clean":
+	case "(*yaml.Node).Decode":
+		// decoding a YAML node into a struct with `yaml:"key"` tags: what ends up in a field is a function of
+		// the node and the key (spec functions yhas / ybool / ystr, available to contracts):
+		//   *T field:     non-nil  <=>  yhas(node, key)   (the key is present with a non-null value)
+		//   bool field:   ybool(node, key)
+		//   string field: ystr(node, key), which is "" when the key is absent
+		// Fields of other types stay unconstrained. Known only when Decode reports no error.
+		vc.havoc(vc.callModSet(call))
+		r := vc.havocResults(call)
+		target := c.Args[len(c.Args)-1]
+		if mi, ok := target.(*ssa.MakeInterface); ok {
+			target = mi.X
+		}
+		if pt, ok := target.Type().Underlying().(*types.Pointer); ok && isStruct(pt.Elem()) && len(r) == 1 {
+			st := pt.Elem().Underlying().(*types.Struct)
+			ref := vc.v(target)
+			okT := Eq(sx("i_tag", r[0]), "0")
+			yhas, ybool, ystr := sym("spec:yhas"), sym("spec:ybool"), sym("spec:ystr")
+			vc.declareFun(yhas, []string{"Int", SStr}, "Bool")
+			vc.declareFun(ybool, []string{"Int", SStr}, "Bool")
+			vc.declareFun(ystr, []string{"Int", SStr}, SStr)
+			for i := 0; i < st.NumFields(); i++ {
+				key := reflect.StructTag(st.Tag(i)).Get("yaml")
+				if j := strings.Index(key, ","); j >= 0 {
+					key = key[:j]
+				}
+				if key == "" || key == "-" {
+					continue
+				}
+				n, srt, ft := vc.e.fieldArr(pt.Elem(), i)
+				fv := Sel(vc.arrCur(n, srt), ref)
+				k := vc.strLit(key)
+				switch u := ft.Underlying().(type) {
+				case *types.Pointer:
+					vc.gfact(Imp(okT, Eq(Ne(fv, "0"), sx(yhas, args[0], k))))
+				case *types.Basic:
+					switch {
+					case u.Kind() == types.Bool:
+						vc.gfact(Imp(okT, Eq(fv, sx(ybool, args[0], k))))
+					case u.Kind() == types.String:
+						vc.gfact(Imp(okT, Eq(fv, sx(ystr, args[0], k))))
+						vc.gfact(Imp(Not(sx(yhas, args[0], k)), Eq(sx(ystr, args[0], k), "empty_str")))
+					}
+				}
+			}
+			vc.usedTrusted["(*yaml.Node).Decode into a tagged struct: pointer field non-nil iff the key is present (yhas), bool/string fields are functions of node and key (ybool, ystr)"] = true
+		}
+		return true
+	case "filepath.Rel":
+		// a function of its two arguments: pathrel(base, target), failing iff relbad(base, target)
+		rf, bf := sym("spec:pathrel"), sym("spec:relbad")
+		vc.declareFun(rf, []string{SStr, SStr}, SStr)
+		vc.declareFun(bf, []string{SStr, SStr}, "Bool")
+		r := vc.havocResults(call)
+		if len(r) == 2 {
+			vc.gfact(Eq(Ne(sx("i_tag", r[1]), "0"), sx(bf, args[0], args[1])))
+			vc.gfact(Imp(Not(sx(bf, args[0], args[1])), Eq(r[0], sx(rf, args[0], args[1]))))
+			vc.gfact(Ge(sx("slen", sx(rf, args[0], args[1])), "0"))
+		}
+		return true
+	case "filepath.IsAbs":
+		fn := sym("spec:isabs")
+		vc.declareFun(fn, []string{SStr}, "Bool")
+		vc.setVal(v, sx(fn, args[0]))
+		return true
+	case "os.IsPathSeparator":
+		// '/' (on Windows also '\\', which never separates path elements on the platforms the proofs speak about)
+		vc.setVal(v, Eq(args[0], "47"))
+		vc.usedTrusted["os.IsPathSeparator(c) is c == '/' (Unix)"] = true
+		return true
+	case "filepath.Dir":
+		// pure: available to contracts as pathdir(p)
+		fn := sym("spec:pathdir")
+		vc.declareFun(fn, []string{SStr}, SStr)
+		vc.setVal(v, sx(fn, args[0]))
+		vc.gfact(Ge(sx("slen", sx(fn, args[0])), "0"))
+		return true
+	case "filepath.Join":
+		// pure; with two or three elements available to contracts as pathjoin(a, b) and
+		// pathjoin(pathjoin(a, b), c)
+		if sl, ok := c.Args[0].(*ssa.Slice); ok {
+			if al, ok := sl.X.(*ssa.Alloc); ok {
+				if at, ok := deref(al.Type()).Underlying().(*types.Array); ok && (at.Len() == 2 || at.Len() == 3) && sl.Low == nil && sl.High == nil {
+					fn := sym("spec:pathjoin")
+					vc.declareFun(fn, []string{SStr, SStr}, SStr)
+					en, es := vc.e.elemArr(at.Elem())
+					E := vc.arrCur(en, es)
+					el := func(i int) Term { return vc.eltTerm(at.Elem(), E, args[0], IntLit(int64(i))) }
+					r := sx(fn, el(0), el(1))
+					if at.Len() == 3 {
+						r = sx(fn, r, el(2))
+					}
+					vc.setVal(v, r)
+					vc.gfact(Ge(sx("slen", r), "0"))
+					return true
+				}
+			}
+		}
+		strRes()
+		return true
+	case "os.Stat", "os.Lstat":
+		// the file system is read once per path as far as the contracts are concerned: statok(path) -
+		// the call succeeds, statdir(path) - it finds a directory
+		okf, dirf, inf := sym("spec:statok"), sym("spec:statdir"), sym("spec:infoisdir")
+		vc.declareFun(okf, []string{SStr}, "Bool")
+		vc.declareFun(dirf, []string{SStr}, "Bool")
+		vc.declareFun(inf, []string{SIface}, "Bool")
+		r := vc.havocResults(call)
+		if len(r) == 2 {
+			vc.gfact(Eq(Eq(sx("i_tag", r[1]), "0"), sx(okf, args[0])))
+			vc.gfact(Imp(sx(okf, args[0]), And(Ne(sx("i_tag", r[0]), "0"), Eq(sx(inf, r[0]), sx(dirf, args[0])))))
+			vc.usedTrusted["os.Stat is a function of the path within one run (statok, statdir): the file system does not change while files are attributed to projects"] = true
+		}
+		return true
+	case "filepath.Clean", "filepath.Base", "filepath.FromSlash", "filepath.Ext", "path.Join", "path.Clean":
 		strRes()
 		return true
 	case "os.Getenv":
@@ -1062,6 +1240,134 @@ var sortingFuncs = map[string]bool{
 	"sort.Strings": true, "sort.Ints": true, "sort.Float64s": true, "sort.Slice": true, "sort.SliceStable": true,
 	"sort.Sort": true, "sort.Stable": true, "slices.Sort": true, "slices.SortFunc": true, "slices.SortStableFunc": true,
 	"sortedQuotes": true,
+}
+
+// mapLoopsAround: the loops over maps that contain the current block: header -> its Next instruction
+func (vc *VC) mapLoopsAround() map[int]*ssa.Next {
+	mapLoops := map[int]*ssa.Next{}
+	for h, set := range vc.loopBlks {
+		if !set[vc.blk.Index] {
+			continue
+		}
+		for _, b := range vc.fn.Blocks {
+			if b.Index != h {
+				continue
+			}
+			for _, ins := range b.Instrs {
+				if nx, ok := ins.(*ssa.Next); ok {
+					if r, ok := nx.Iter.(*ssa.Range); ok {
+						if _, isMap := r.X.Type().Underlying().(*types.Map); isMap {
+							mapLoops[h] = nx
+						}
+					}
+				}
+			}
+		}
+	}
+	return mapLoops
+}
+
+// derivedFromIteration: x is computed from the key or value of the current iteration of one of the loops
+func derivedFromIteration(mapLoops map[int]*ssa.Next, x ssa.Value, d int) bool {
+	if d > 8 {
+		return false
+	}
+	switch y := x.(type) {
+	case *ssa.Extract:
+		if nx, ok := y.Tuple.(*ssa.Next); ok {
+			for _, m := range mapLoops {
+				if m == nx {
+					return true
+				}
+			}
+		}
+		return derivedFromIteration(mapLoops, y.Tuple, d+1)
+	case *ssa.UnOp:
+		return derivedFromIteration(mapLoops, y.X, d+1)
+	case *ssa.FieldAddr:
+		return derivedFromIteration(mapLoops, y.X, d+1)
+	case *ssa.Field:
+		return derivedFromIteration(mapLoops, y.X, d+1)
+	case *ssa.IndexAddr:
+		return derivedFromIteration(mapLoops, y.X, d+1)
+	case *ssa.Lookup:
+		return derivedFromIteration(mapLoops, y.Index, d+1) || derivedFromIteration(mapLoops, y.X, d+1)
+	case *ssa.Slice:
+		return derivedFromIteration(mapLoops, y.X, d+1)
+	case *ssa.Call:
+		// a position obtained from the element: v.Pos(), posAt(n)
+		for _, a := range y.Call.Args {
+			if derivedFromIteration(mapLoops, a, d+1) {
+				return true
+			}
+		}
+		if y.Call.IsInvoke() {
+			return derivedFromIteration(mapLoops, y.Call.Value, d+1)
+		}
+	case *ssa.MakeInterface:
+		return derivedFromIteration(mapLoops, y.X, d+1)
+	case *ssa.TypeAssert:
+		return derivedFromIteration(mapLoops, y.X, d+1)
+	}
+	return false
+}
+
+// diagFields: the field arrays that hold diagnostics (slices of *Error / *ExprError)
+func (e *Engine) diagFields() map[string]bool {
+	if e.diagFieldSet != nil {
+		return e.diagFieldSet
+	}
+	e.diagFieldSet = map[string]bool{}
+	sc := e.pkg.Pkg.Scope()
+	for _, n := range sc.Names() {
+		tn, ok := sc.Lookup(n).(*types.TypeName)
+		if !ok {
+			continue
+		}
+		st, ok := tn.Type().Underlying().(*types.Struct)
+		if !ok {
+			continue
+		}
+		for i := 0; i < st.NumFields(); i++ {
+			if sl, ok := st.Field(i).Type().Underlying().(*types.Slice); ok {
+				if en := e.typeName(sl.Elem()); en == "*Error" || en == "*ExprError" {
+					an, _, _ := e.fieldArr(tn.Type(), i)
+					e.diagFieldSet[an] = true
+				}
+			}
+		}
+	}
+	return e.diagFieldSet
+}
+
+// mapOrderReportCheck (C02): a call inside a loop over a map that (transitively) appends to a list of
+// diagnostics emits them in map order. The later sort by position repairs that only when the position
+// handed over belongs to the element of the iteration; diagnostics of several iterations at one and the
+// same position keep the (random) order of the map.
+func (vc *VC) mapOrderReportCheck(call ssa.CallInstruction, callee *ssa.Function) {
+	mapLoops := vc.mapLoopsAround()
+	if len(mapLoops) == 0 {
+		return
+	}
+	m := vc.callModSet(call)
+	if m == nil || m.All {
+		return
+	}
+	reports := false
+	for n := range m.Arr {
+		if vc.e.diagFields()[n] {
+			reports = true
+		}
+	}
+	if !reports {
+		return
+	}
+	for _, a := range call.Common().Args {
+		if derivedFromIteration(mapLoops, a, 0) {
+			return
+		}
+	}
+	vc.check("map-order", call.Pos(), "", "false", []string{"C02"})
 }
 
 func (vc *VC) mapOrderCheck(call ssa.CallInstruction) {
